@@ -297,6 +297,9 @@ def gen_sequence(rng):
         if crosses and rng.random() < 0.25 and i + 1 < n:
             # the shape in which F13 lives: a cross-signature, then a plain signature
             ci = 0
+            if rng.random() < 0.4:
+                # the cross-signing key is (still) in this root's key table, for other roles than root
+                cmds.append(("add-key", list(crosses[ci]["keys"])[:1], [rng.choice([1, 2, 3])]))
             cmds.append(("sign", list(crosses[ci]["keys"])[:1], ci, True))
             cmds.append(gen_sign(rng, own, crosses, force_plain=True))
             if len(cmds) >= 12:
@@ -305,7 +308,7 @@ def gen_sequence(rng):
         cmds.append(gen_random_cmd(rng, own, crosses))
         if len(cmds) >= 12:
             break
-    return {"own": own, "cross": crosses, "cmds": cmds[:12]}
+    return {"own": own, "cross": crosses, "cmds": cmds[:13]}
 
 
 def corpus():
@@ -318,6 +321,16 @@ def corpus():
         # F13: threshold 2, cross-signature by the old key, then a single own key
         {"own": [0, 12], "cross": [old], "cmds": setup2 + [("sign", [5], 0, True), ("sign", [0], None, False)]},
         {"own": [0, 12], "cross": [oldrsa], "cmds": setup2 + [("sign", [13], 0, True), ("sign", [12], None, False)]},
+        # the same with the old key still in the new root's key table, for the other roles only (listed for them from
+        # the start, or listed for all roles and then removed from the root role): its cross-signature is a signature by
+        # a key the root knows, but not by a key of the root role
+        {"own": [0, 12], "cross": [old], "cmds": [("init", None), ("add-key", [0, 12], [0, 1, 2, 3]), ("add-key", [5], [1, 2, 3]),
+                                                  ("set-threshold", 0, 2), ("set-threshold", 1, 1), ("set-threshold", 2, 1),
+                                                  ("set-threshold", 3, 1), ("sign", [5], 0, True), ("sign", [0], None, False)]},
+        {"own": [0, 12], "cross": [oldrsa], "cmds": [("init", None), ("add-key", [13, 0, 12], [0, 1, 2, 3]), ("remove-key", 13, 0),
+                                                     ("set-threshold", 0, 2), ("set-threshold", 1, 1), ("set-threshold", 2, 1),
+                                                     ("set-threshold", 3, 1), ("sign", [13], 0, True), ("sign", [12], None, False),
+                                                     ("sign", [12, 0], None, False)]},
         # the intended rotation flow: cross-sign, then both own keys
         {"own": [0, 12], "cross": [old], "cmds": setup2 + [("sign", [5], 0, True), ("sign", [0, 12], None, False),
                                                             ("bump-version",), ("sign", [0, 12], None, False)]},
